@@ -354,7 +354,7 @@ func VerifH_C12_deadlines() {
 		maxRefs = 2
 	}
 	p := verifSetupPass(verifPassOpts{
-		job:          verifJobOpts{maxRefs: maxRefs, parallel: 0, started: 1, allowKill: true, maxAttemptsHi: 2, inv8: true, oneResult: true},
+		job:          verifJobOpts{maxRefs: maxRefs, parallel: 0, started: 1, allowKill: true, allowAdmErr: true, maxAttemptsHi: 2, inv8: true, oneResult: true},
 		taskDeleting: true, cfgTimeouts: true, deleteMayFail: vz.Thorough(), createOutcomes: 1,
 	})
 	j := p.j
